@@ -4,6 +4,7 @@
 From Coq Require Import List NArith Bool String Lia.
 From Verif Require Import Lib.Bytes Sni.Wire Sni.WireProofs Sni.WireGen Gen.WireSchema.
 From Verif Require Import Sni.Hello Sni.Stream Sni.StreamClose Sni.ReadBuf Sni.ReadBufProofs
+  Sni.ReadHold Sni.ReadHoldProofs
   Gen.StreamConsts Gen.HelloConsts.
 Import ListNotations.
 Local Open Scope N_scope.
@@ -39,6 +40,16 @@ Proof. reflexivity. Qed.
     the endpoint do in between. *)
 Lemma gen_read_buf_owned : rb_ownedb gen_read_buf = true.
 Proof. vm_compute. reflexivity. Qed.
+
+(** handleRead and handleWrite hold nothing that is shared between sessions
+    (no lock, no semaphore slot, no channel token) when they enter the
+    blocking conn.Read / conn.Write. *)
+Lemma gen_read_holds_nothing_shared :
+  holds_nothingb gen_read_held = true /\ holds_nothingb gen_write_held = true.
+Proof. split; reflexivity. Qed.
+
+Lemma gen_read_hold_none : hold_of gen_read_held = HoldNone /\ hold_of gen_write_held = HoldNone.
+Proof. split; reflexivity. Qed.
 
 Lemma gen_read_buf_policy : policy_of gen_read_buf = Some BFresh.
 Proof. reflexivity. Qed.
